@@ -183,6 +183,12 @@ func (e *Env) evalIdent(name string) V {
 		if len(e.results) > 1 {
 			return V{Tup: e.results}
 		}
+		// not a postcondition: a local variable may be called `result`
+		if e.frame != nil {
+			if v, ok := x.lookupLocal(e.frame, name, e.point, e.cur); ok {
+				return v
+			}
+		}
 		e.fail("result used outside a postcondition")
 	}
 	if e.frame != nil {
